@@ -942,7 +942,7 @@ func (r *hdRun) digestTerm() string {
 		for _, p := range x.Pubs {
 			pubs |= 1 << map[string]int{"audio": 0, "video": 1, "screen": 2}[p]
 		}
-		sess = append(sess, fmt.Sprintf("(mksd %d %d %d %d %s %d %s %s %s %d %d %d %s %d)", x.Sid, x.Backend, kindNum[x.Kind], hdUserNum(x.User),
+		sess = append(sess, fmt.Sprintf("(mksd %d %d %d %d %d %s %d %s %s %s %d %d %d %s %d)", x.Sid, x.Backend, kindNum[x.Kind], hdUserNum(x.User), hdUserNum(x.AuthUser),
 			roomKey(x.Room), rs, conn, coqBool(x.InCall), perms, pubs, len(x.Subs), x.Pending, coqBool(x.Counted), x.Parent))
 	}
 	var rooms []string
@@ -1003,9 +1003,9 @@ func (r *hdRun) digestTerm() string {
 		}
 		kinds[k] += n
 	}
-	return fmt.Sprintf("(mkdigest %s %s %s %s %s %s %s %s %s %d %d %d %d %d %d)", coqList(sess), coqList(rooms), coqList(rs1), coqList(rs2), coqList(vt),
+	return fmt.Sprintf("(mkdigest %s %s %s %s %s %s %s %s %s %d %d %d %d %d %d %d)", coqList(sess), coqList(rooms), coqList(rs1), coqList(rs2), coqList(vt),
 		nums(d.Expired), nums(d.Anonymous), nums(d.Dialout), nums(d.Clients), d.ExpectHello,
-		kinds["backend"], kinds["room"], kinds["user"], kinds["session"], len(d.McuOpen))
+		kinds["backend"], kinds["room"], kinds["user"], kinds["session"], len(d.McuOpen), d.McuPending)
 }
 
 // runCase executes a case and returns the Coq term of its trace.
